@@ -87,12 +87,18 @@ func vtemplate(kind int) (Script, string) {
 		}
 		s := append(Script{65}, k...)
 		return append(s, OpCHECKSIG), ScriptTypePubKey
-	case 3: // 1-of-2 multisig
-		s := Script{Op1, 33}
+	case 3: // m-of-n multisig: both counts are any small-integer opcode OP_1..OP_16
+		m, n := vnondetU8("multisig-m"), vnondetU8("multisig-n")
+		if vsymbolicData {
+			vassume(m >= Op1 && m <= Op16 && n >= Op1 && n <= Op16)
+		} else {
+			m, n = Op1, Op2
+		}
+		s := Script{m, 33}
 		s = append(s, vdata("k1", 33)...)
 		s = append(s, 33)
 		s = append(s, vdata("k2", 33)...)
-		return append(s, Op2, OpCHECKMULTISIG), ScriptTypeMultiSig
+		return append(s, n, OpCHECKMULTISIG), ScriptTypeMultiSig
 	case 4:
 		s := Script{OpRETURN}
 		return append(s, vnondetBytes("payload", 0, 3)...), ScriptTypeNullData
